@@ -52,12 +52,27 @@ def make_exception(name):
     return IndexError('algorithm: index')
   if name == 'AssertionError':
     return AssertionError('algorithm: assertion')
+  builtin = {'NotImplementedError': NotImplementedError, 'TypeError': TypeError, 'AttributeError': AttributeError,
+             'OSError': OSError, 'LookupError': LookupError, 'ArithmeticError': ArithmeticError,
+             'StopIteration': StopIteration, 'TimeoutError': TimeoutError, 'MemoryError': MemoryError,
+             'RecursionError': RecursionError, 'UnicodeDecodeError': None, 'ImportError': ImportError}
+  if name == 'UnicodeDecodeError':
+    return UnicodeDecodeError('utf-8', b'\xff', 0, 1, 'algorithm: bad bytes')
+  if name in builtin:
+    return builtin[name](f'algorithm: {name}')
   raise ValueError(name)
 
 
+# What hosted algorithms really raise: the repo's own policies raise
+# NotImplementedError from early_stop(); numerical code raises Arithmetic /
+# Type / Attribute errors; Pythia has its own error classes; a remote call
+# inside a policy raises RpcError.
 EXCEPTION_TYPES = ['ValueError', 'KeyError', 'RuntimeError', 'ZeroDivisionError',
                    'HarnessAlgorithmError', 'TemporaryPythiaError', 'InactivateStudyError',
-                   'RpcError', 'IndexError', 'AssertionError']
+                   'RpcError', 'IndexError', 'AssertionError', 'NotImplementedError', 'NotImplementedError',
+                   'TypeError', 'AttributeError', 'OSError', 'LookupError', 'ArithmeticError',
+                   'StopIteration', 'TimeoutError', 'MemoryError', 'RecursionError', 'UnicodeDecodeError',
+                   'ImportError']
 
 
 class SequencePolicy(pythia.Policy):
